@@ -605,3 +605,98 @@ Example C01_static_merge_right_all_sat_example :
   (length (blocks (base s)) <= length (bout s))%nat /\
   (exists s', merge_right s 0 = Ok s') /\ slack_val (base s) 0 < 0.
 Proof. exact merge_right_all_sat_closed_example. Qed.
+
+(* ---- (d-static4) the mergeLeft half of Blocks::split (Vpsc/StaticGeom2.v, Vpsc/StaticSplitML.v).
+   Block::merge for blocks whose statistics are valid but whose posn is NOT the optimum (the right half r after
+   `r->posn = b->posn`): rigid shifts rr - rl = violation, merged block at its optimum again, signs only when both sides
+   were at their optimum.  mergeLeft(l)'s loop inside split keeps a TWO-MODE invariant (MLS): while r is not part of the
+   current block M every variable of M is left of its position at split entry by at least the violation of every
+   in-constraint of M and nothing else moved (geoA; at exit every constraint holds); once r has been merged only the pair
+   invariant J survives (geoJ; at exit J + in-constraints = I2, what mergeRight starts from).  Proved relative to
+   `ml_roots_ok` (the in-heap root is a most violated in-constraint at every tested state: bit 4096 of Vpsc/StaticRefB.v,
+   evaluated with bits 8192/16384/32768 on every DAG run) - hence _partial.  Still missing for
+   `static_refine_returns_on_dag`: the in-heap order in the split context (in the single mergeLeft after setup_all a key
+   is stale iff its left end is in the current block, so the relation "among current keys heap-ordered" suffices),
+   Block::split / findMinLM facts incl. the sign lemma (l's optimum is left of, r's right of, the old position), and the
+   assembly through static_split / refine_pass with totality. *)
+From Adapt Require Import Vpsc.StaticGeom2 Vpsc.StaticSplitML Vpsc.StaticSplitMLEx.
+
+Theorem C01_static_merge_nonoptimal_shift b c (sw : bool) d :
+  book b -> wf_vars (svars b) -> (c < length (scons b))%nat ->
+  let r := blk_of b (cr (con_of b c)) in
+  let l := blk_of b (cl (con_of b c)) in
+  l <> r -> blk_st b l -> blk_st b r ->
+  d == (if sw then - mdist' b c else mdist' b c) ->
+  let t := if sw then l else r in
+  let b' := merge_into b t (if sw then r else l) c d in
+  exists rr rl, rr - rl == - slack_val b c /\
+    (forall u, (u < length (svars b))%nat ->
+       (blk_of b u = r -> Yof b' u == Yof b u + rr) /\
+       (blk_of b u = l -> Yof b' u == Yof b u + rl) /\
+       (blk_of b u <> r -> blk_of b u <> l -> Yof b' u == Yof b u)) /\
+    blk_ok b' t /\
+    (forall u, (u < length (svars b))%nat -> blk_of b u <> r -> blk_of b u <> l ->
+       (blk_st b (blk_of b u) -> blk_st b' (blk_of b u)) /\ (blk_ok b (blk_of b u) -> blk_ok b' (blk_of b u))) /\
+    (blk_ok b l -> blk_ok b r -> slack_val b c < 0 -> 0 <= rr /\ rl <= 0).
+Proof. exact (merge_shift_st b c sw d). Qed.
+Print Assumptions C01_static_merge_nonoptimal_shift.
+
+Theorem C01_static_split_merge_left_step Yb rv b N c0 (sw : bool) :
+  MLS Yb rv b N -> (c0 < length (scons b))%nat ->
+  blk_of b (cr (con_of b c0)) = N -> blk_of b (cl (con_of b c0)) <> N -> slack_val b c0 < 0 ->
+  (forall i, (i < length (scons b))%nat -> blk_of b (cr (con_of b i)) = N -> blk_of b (cl (con_of b i)) <> N ->
+     slack_val b c0 <= slack_val b i \/ 0 <= slack_val b i) ->
+  let Z := blk_of b (cl (con_of b c0)) in
+  let t := if sw then Z else N in
+  let b' := merge_into b t (if sw then N else Z) c0 (if sw then - mdist b c0 else mdist b c0) in
+  MLS Yb rv b' t /\ scons b' = scons b /\ svars b' = svars b.
+Proof. exact (MLS_step Yb rv b N c0 sw). Qed.
+Print Assumptions C01_static_split_merge_left_step.
+
+Theorem C01_static_split_merge_left_entry Yb rv b l dl :
+  book b -> act_inv b -> wf_vars (svars b) -> all_blk_st b -> ok_except b (blk_of b rv) -> blk_of b rv <> l ->
+  ysat Yb b -> (rv < length (svars b))%nat -> 0 <= dl ->
+  (forall u, (u < length (svars b))%nat -> blk_of b u = l -> Yof b u == Yb u - dl) ->
+  (forall u, (u < length (svars b))%nat -> blk_of b u <> l -> Yof b u == Yb u) ->
+  MLS Yb rv b l.
+Proof. exact (MLS_entry Yb rv b l dl). Qed.
+Print Assumptions C01_static_split_merge_left_entry.
+
+Theorem C01_static_split_merge_left_partial Yb rv s l s' :
+  MLS Yb rv (base s) l ->
+  (forall s1 c,
+     find_min_in (set_up_heap true (set_btime (set_ctr s (S (ctr s))) (upd_nth (btime s) l (S (ctr s)))) l) l = Ok (s1, c) ->
+     ml_roots_ok (loop_fuel s) s1 l c) ->
+  merge_left s l = Ok s' ->
+  exists M, MLS Yb rv (base s') M /\
+    (forall i, (i < length (scons (base s')))%nat -> blk_of (base s') (cr (con_of (base s') i)) = M ->
+               blk_of (base s') (cl (con_of (base s') i)) <> M -> 0 <= slack_val (base s') i) /\
+    scons (base s') = scons (base s) /\ svars (base s') = svars (base s).
+Proof. exact (merge_left_split Yb rv s l s'). Qed.
+Print Assumptions C01_static_split_merge_left_partial.
+
+(* what the exit of mergeLeft(l) gives the second half of Blocks::split: every constraint holds if r was not merged,
+   the loop invariant of mergeRight (MRI = I2 + block statistics) for the merged block otherwise *)
+Theorem C01_static_split_merge_left_exit_not_merged Yb rv b M :
+  MLS Yb rv b M -> blk_of b rv <> M ->
+  (forall i, (i < length (scons b))%nat -> blk_of b (cr (con_of b i)) = M -> blk_of b (cl (con_of b i)) <> M -> 0 <= slack_val b i) ->
+  all_sat0 b /\ ok_except b (blk_of b rv).
+Proof. exact (ml_loop_split_not_merged Yb rv b M). Qed.
+Print Assumptions C01_static_split_merge_left_exit_not_merged.
+
+Theorem C01_static_split_merge_left_exit_merged Yb rv b M :
+  MLS Yb rv b M -> blk_of b rv = M ->
+  (forall i, (i < length (scons b))%nat -> blk_of b (cr (con_of b i)) = M -> blk_of b (cl (con_of b i)) <> M -> 0 <= slack_val b i) ->
+  MRI b M.
+Proof. exact (ml_loop_split_merged Yb rv b M). Qed.
+Print Assumptions C01_static_split_merge_left_exit_merged.
+
+(* non-vacuity: a mode-A state on which mergeLeft really merges; every hypothesis holds *)
+Example C01_static_split_merge_left_partial_example :
+  MLS sx_Yb 2 (base sx_s) 1 /\
+  (forall s1 c,
+     find_min_in (set_up_heap true (set_btime (set_ctr sx_s (S (ctr sx_s))) (upd_nth (btime sx_s) 1%nat (S (ctr sx_s)))) 1) 1 = Ok (s1, c) ->
+     ml_roots_ok (loop_fuel sx_s) s1 1 c) /\
+  (exists s', merge_left sx_s 1 = Ok s' /\ blk_of (base s') 0 = blk_of (base s') 1) /\
+  slack_val (base sx_s) 0 < 0.
+Proof. exact merge_left_split_example. Qed.
